@@ -96,14 +96,46 @@ type gbFeat struct {
 func renderGenbank(origin string, feats []gbFeat) []byte {
 	var b bytes.Buffer
 	fmt.Fprintf(&b, "LOCUS       TEST %d bp\n", len(origin))
+	b.WriteString("DEFINITION  synthetic genome.\n")
 	b.WriteString("FEATURES             Location/Qualifiers\n")
 	fmt.Fprintf(&b, "     source          1..%d\n", len(origin))
 	b.WriteString("                     /organism=\"test\"\n")
-	for _, f := range feats {
+	b.WriteString("                     /mol_type=\"genomic RNA\"\n")
+	for i, f := range feats {
+		// as in real flat files: a gene feature next to the CDS, qualifiers before and after the ones that are used,
+		// and a /translation wrapped over several lines (the closing quote on the last one)
+		fmt.Fprintf(&b, "     gene            %s\n", f.loc)
+		fmt.Fprintf(&b, "                     /gene=\"%s\"\n", f.gene)
 		fmt.Fprintf(&b, "     CDS             %s\n", f.loc)
 		fmt.Fprintf(&b, "                     /gene=\"%s\"\n", f.gene)
+		if i%2 == 0 {
+			fmt.Fprintf(&b, "                     /note=\"synthetic feature %d; spans\n", i)
+			b.WriteString("                     two lines\"\n")
+		}
 		fmt.Fprintf(&b, "                     /codon_start=%d\n", f.start)
-		fmt.Fprintf(&b, "                     /translation=\"%s\"\n", f.trans)
+		fmt.Fprintf(&b, "                     /product=\"test protein %d\"\n", i)
+		w := []int{0, 3, 5, 58}[(i+len(f.trans))%4]
+		if w == 0 || len(f.trans) <= w {
+			fmt.Fprintf(&b, "                     /translation=\"%s\"\n", f.trans)
+		} else {
+			for k := 0; k < len(f.trans); k += w {
+				j := k + w
+				if j > len(f.trans) {
+					j = len(f.trans)
+				}
+				pre, post := "", ""
+				if k == 0 {
+					pre = "/translation=\""
+				}
+				if j == len(f.trans) {
+					post = "\""
+				}
+				fmt.Fprintf(&b, "                     %s%s%s\n", pre, f.trans[k:j], post)
+			}
+		}
+		if i%3 == 1 {
+			b.WriteString("                     /db_xref=\"GI:12345\"\n")
+		}
 	}
 	b.WriteString("ORIGIN\n")
 	low := strings.ToLower(origin)
@@ -112,7 +144,16 @@ func renderGenbank(origin string, feats []gbFeat) []byte {
 		if j > len(low) {
 			j = len(low)
 		}
-		fmt.Fprintf(&b, "%9d %s\n", i+1, low[i:j])
+		// groups of ten bases separated by blanks, as in real files
+		var groups []string
+		for k := i; k < j; k += 10 {
+			e := k + 10
+			if e > j {
+				e = j
+			}
+			groups = append(groups, low[k:e])
+		}
+		fmt.Fprintf(&b, "%9d %s\n", i+1, strings.Join(groups, " "))
 	}
 	b.WriteString("//\n")
 	return b.Bytes()
